@@ -67,6 +67,17 @@ CHECKS = {
         note='Trusted: Mutex mutual exclusion, sequential consistency at event granularity, lsm-tree memtable linearizability (E10). Outside: liveness, more than 2 writers + 1 reader, hardware memory ordering.',
         technique='MIR symbolic execution + z3 bounded schedule model; native two-thread replay',
     ),
+    'C16': dict(
+        category='model_checking',
+        text='MIR symbolic execution of all six policy codecs (encode then decode over symbolic entries, read/write widths and kinds matched segment by segment), of '
+             'CreateOptions::encode_kvs followed by from_kvs over a symbolic key-value store keyed by the option-name constants (every settable field must come back, kv-separation '
+             'present and absent), of Database::keyspace on an existing name (create_options never evaluated) and of apply_to_base_config (field -> same-named tree setter). '
+             'Counterexamples are replayed natively: create with non-default options, reopen passing other options, compare the options in force.',
+        design_ref='DESIGN.md §5 C16',
+        note='Trusted: lsm-tree policy types are vectors; strategy get_name/get_config return constructor parameters (contract, exercised natively). Outside: policy vectors longer than 3, '
+             'bit-level f32 formatting (compared bitwise), behaviour that depends on an option.',
+        technique='MIR symbolic execution with symbolic byte-segment buffers + z3 equality queries; native reopen replay',
+    ),
 }
 
 NOT_YET = {}
